@@ -41,7 +41,8 @@ def parseLocal (given : Str) : Option Str :=
 /-- the path part of `ResolveRelativeSource(LocalSource a, LocalSource b)` -/
 def resolveLocalLocal (a b : Str) : Str :=
   let n := pathJoin a b
-  if !looksLikeLocal n then '.' :: '/' :: n else n
+  if n = dot ∨ n = dotdot then n ++ ['/']   -- the canonical forms are "./" and "../"
+  else if !looksLikeLocal n then '.' :: '/' :: n else n
 
 /-- Address values; package parts are opaque printed forms. -/
 inductive Addr
